@@ -42,13 +42,24 @@ def wsgiApp? : Sexp → Option Wsgi.App
     some ⟨(← wsgiStatus? st), (← pairs? hs), (← optNat? cl), (← bytesList? ps), (← bytes? rv)⟩
   | _ => none
 
+def wsgiErr? : Sexp → Option (Option (Nat × Wsgi.Err))
+  | .atom "-" => some none
+  | .list [k, st, rs, ti, de, fa, hs] => do
+    some (some (← nat? k, ⟨(← nat? st), (← bytes? rs), (← bytes? ti), (← bytes? de), (← optNat? fa), (← pairs? hs)⟩))
+  | _ => none
+
+def wsgiAppX? : Sexp → Option Wsgi.AppX
+  | .list [st, hs, cl, ps, rv, er] => do
+    some ⟨← wsgiApp? (.list [st, hs, cl, ps, rv]), ← wsgiErr? er⟩
+  | a => do some ⟨← wsgiApp? a, none⟩
+
 def c18Conn : Sexp → Option Sexp
   | .list [eof, .list rs, .list as] => do
     let eof ← bool? eof
     let rs ← rs.mapM wsgiReq?
-    let as ← as.mapM wsgiApp?
+    let as ← as.mapM wsgiAppX?
     if rs.length != as.length then none
-    let o := Wsgi.serve (rs.zip as)
+    let o := Wsgi.serveX (rs.zip as)
     -- a connection whose client went away is dropped by the server; what had been queued by then depends on timing
     if eof then some (.list [sym "eof", ofBool true])
     else some (.list [ofBytes o.raw, ofBool o.closed, ofNat o.calls])
@@ -57,9 +68,9 @@ def c18Conn : Sexp → Option Sexp
 def c18 : Sexp → Option Sexp
   | .list [.atom "c18", .list rs, .list as] => do
     let rs ← rs.mapM wsgiReq?
-    let as ← as.mapM wsgiApp?
+    let as ← as.mapM wsgiAppX?
     if rs.length != as.length then none
-    let o := Wsgi.serve (rs.zip as)
+    let o := Wsgi.serveX (rs.zip as)
     some (.list [ofBytes o.raw, ofBool o.closed, ofNat o.calls])
   | _ => none
 
@@ -72,8 +83,8 @@ def cliLoc? : Sexp → Option (Option Cli.Loc)
   | _ => none
 
 def cliResp? : Sexp → Option Cli.Resp
-  | .list [st, loc, body, fr, cl] => do
-    some ⟨(← nat? st), (← cliLoc? loc), (← bytes? body), (← nat? fr), (← bool? cl)⟩
+  | .list [st, loc, body, fr, cl, ic] => do
+    some ⟨(← nat? st), (← cliLoc? loc), (← bytes? body), (← nat? fr), (← bool? cl), (← bool? ic)⟩
   | _ => none
 
 def cliServer? : Sexp → Option Cli.Server
@@ -100,7 +111,8 @@ def outcomeName : Cli.Outcome → String
   | .running => "running" | .stuck => "stuck"
 
 def c19 : Sexp → Option Sexp
-  | .list [.atom "c19", sec, port, .list rq, .list sv, .list more] => do
+  | .list [.atom "c19", sec, port, .list rq, .list sv, .list more, ro] => do
+    let ro ← bool? ro
     let sec ← bool? sec
     let port ← nat? port
     let rq ← rq.mapM cliReq?
@@ -108,7 +120,7 @@ def c19 : Sexp → Option Sexp
     let more ← more.mapM cliMore?
     let fuel := 2 * (rq.length + more.length + (sv.map (fun s => s.script.length)).foldl (· + ·) 0) + 10
     let s1 := Cli.run sv (List.replicate fuel true) (Cli.init sec port sv rq)
-    let s := if more.isEmpty then s1 else Cli.run sv (List.replicate fuel true) (Cli.reopenAndQueue sv s1 rq.length more)
+    let s := if more.isEmpty then s1 else Cli.run sv (List.replicate fuel true) (Cli.reopenAndQueue sv ro s1 rq.length more)
     let ents := s.entries.map fun e =>
       Sexp.list [ofOptNat e.status, ofBytes e.body, ofBool e.errored, ofOptNat e.tag, ofBytes e.method, ofBytes e.path, ofBytes e.rbody, ofPairs e.rqargs,
                  .list (e.redirects.map fun h => .list [ofNat h.status, ofBytes h.path, ofOptNat h.tag])]
